@@ -34,6 +34,11 @@ Definition ge_eqb (a b : gedge) : bool := pt_eqb (fst a) (fst b) && (snd a =? sn
 Definition gadd (c : pt) (g : gedge) : gedge := (padd c (fst g), snd g).
 Definition gsub (g : gedge) (c : pt) : gedge := (psub (fst g) c, snd g).
 
+(* unit vector of an axis; the grid edge (p, a) joins p and p + axis_vec a *)
+Definition axis_vec (a : Z) : pt := if a =? 0 then (1, 0, 0) else if a =? 1 then (0, 1, 0) else (0, 0, 1).
+Definition ge_lo (g : gedge) : pt := fst g.
+Definition ge_hi (g : gedge) : pt := padd (fst g) (axis_vec (snd g)).
+
 Definition tri := (gedge * gedge * gedge)%type.
 Definition dedge := (gedge * gedge)%type.
 Definition de_eqb (a b : dedge) : bool := ge_eqb (fst a) (fst b) && ge_eqb (snd a) (snd b).
